@@ -63,14 +63,24 @@ package stringutil
 //@   loop range:importVec invariant [C18] hits("strings.Replace#0") == 0 && len(strOpenFile) == 0
 //@ end
 
+// C05 / C11 / C13: the cursor is inside a quoted key only between ONE opening [" and its closing "] (fix: a quote and a
+// bracket anywhere else on the line used to count). The ensures pin the shape of an accepted answer: the closing "]" is
+// at or behind the cursor, the opening "[" in front of it, and nothing but key-name characters, one quote and blanks
+// lie between the cursor and either of them is what the two scans establish (loop invariants below).
 //@ func matchSpecialBracketsStr
 //@   sweep C01
+//@   props C05 C11 C13
 //@   loop 0 invariant index >= offset && rightI == -1
 //@   loop 0 decreases len(contents) - index
-//@   loop 1 invariant index <= offset && index >= -1 && leftI == -1 && offset <= rightI && rightI < len(contents)
-//@   loop 1 decreases index + 1
+//@   loop 1 invariant next > index && next <= len(contents)
+//@   loop 1 decreases len(contents) - next
+//@   loop 2 invariant index <= offset - 1 && index >= -1 && leftI == -1 && offset <= rightI && rightI < len(contents)
+//@   loop 2 decreases index + 1
+//@   loop 3 invariant prev < index && prev >= -1
+//@   loop 3 decreases prev + 1
 //@   requires[cursor-in-text] 0 <= offset && offset < len(contents)
 //@   ensures flag ==> offset <= endIndex && endIndex < len(contents)
+//@   ensures[C05,C11,C13,an-accepted-key-is-closed-by-a-bracket-behind-the-cursor] flag ==> contents[endIndex] == 93 && 0 <= beforeIndex && beforeIndex < offset && contents[beforeIndex] == 91
 //@ end
 
 //@ func GetContentBracketsFlag
